@@ -121,20 +121,20 @@ fn redeclare(img: &mut Value, which: u8, val: u8, dyn_img: Option<&Value>) -> Ve
             // smaller / larger trace, all exponents shifted together
             let d: i64 = [-1i64, 1, -4, 4, -8][val as usize % 5];
             for p in ["/config/log_trace_domain_size", "/public_input/log_n_steps", "/config/traces/original/vector/height", "/config/traces/interaction/vector/height", "/config/composition/vector/height", "/config/fri/log_input_size"] {
-                let v = get(img, p) as i64 + d;
-                if v >= 0 {
+                let v = (get(img, p) as i64).wrapping_add(d);
+                if v >= 0 && (get(img, p) as i64) >= 0 {
                     if let Some(slot) = img.pointer_mut(p) { *slot = hexu(v as u64); }
                 }
             }
             let n_inner = img.pointer("/config/fri/inner_layers").and_then(|v| v.as_array()).map(|a| a.len()).unwrap_or(0);
             for i in 0..n_inner {
                 let p = format!("/config/fri/inner_layers/{}/vector/height", i);
-                let v = get(img, &p) as i64 + d;
-                if v >= 0 {
+                let v = (get(img, &p) as i64).wrapping_add(d);
+                if v >= 0 && (get(img, &p) as i64) >= 0 {
                     if let Some(slot) = img.pointer_mut(&p) { *slot = hexu(v as u64); }
                 }
             }
-            let v = get(img, "/config/fri/log_last_layer_degree_bound") as i64 + d;
+            let v = (get(img, "/config/fri/log_last_layer_degree_bound") as i64).saturating_add(d);
             if v >= 0 {
                 img["config"]["fri"]["log_last_layer_degree_bound"] = hexu(v as u64);
             }
@@ -171,18 +171,18 @@ fn redeclare(img: &mut Value, which: u8, val: u8, dyn_img: Option<&Value>) -> Ve
         _ => {
             // blow-up changed with all heights and the FRI input size
             let cur = get(img, "/config/log_n_cosets") as i64;
-            let d: i64 = [-1i64, 1, 2, (16 - cur).max(1), (12 - cur).max(1)][val as usize % 5];
+            let d: i64 = [-1i64, 1, 2, 16i64.saturating_sub(cur).max(1), 12i64.saturating_sub(cur).max(1)][val as usize % 5];
             for p in ["/config/log_n_cosets", "/config/traces/original/vector/height", "/config/traces/interaction/vector/height", "/config/composition/vector/height", "/config/fri/log_input_size"] {
-                let v = get(img, p) as i64 + d;
-                if v >= 0 {
+                let v = (get(img, p) as i64).wrapping_add(d);
+                if v >= 0 && (get(img, p) as i64) >= 0 {
                     if let Some(slot) = img.pointer_mut(p) { *slot = hexu(v as u64); }
                 }
             }
             let n_inner = img.pointer("/config/fri/inner_layers").and_then(|v| v.as_array()).map(|a| a.len()).unwrap_or(0);
             for i in 0..n_inner {
                 let p = format!("/config/fri/inner_layers/{}/vector/height", i);
-                let v = get(img, &p) as i64 + d;
-                if v >= 0 {
+                let v = (get(img, &p) as i64).wrapping_add(d);
+                if v >= 0 && (get(img, &p) as i64) >= 0 {
                     if let Some(slot) = img.pointer_mut(&p) { *slot = hexu(v as u64); }
                 }
             }
